@@ -57,6 +57,25 @@ CHECK_DEADLOCK FALSE
 # cb_start / cb_end sync points and raises for items in `faults` (used by C19).
 # ------------------------------------------------------------------------------------------------
 
+class UnpicklableError(Exception):
+    """An exception instance that cannot cross a process boundary (it carries a lock)."""
+
+    def __init__(self, msg):
+        Exception.__init__(self, msg)
+        import threading
+        self.lock = threading.Lock()
+
+
+def raise_fault(flavour, key):
+    """plain: an ordinary exception; unpicklable: one that cannot be sent through a queue; signal: the worker is
+    killed (negative exit status), as by the OOM killer or a crash in native code."""
+    if flavour == "unpicklable":
+        raise UnpicklableError("injected fault at %r" % (key,))
+    if flavour == "signal":
+        raise simmp.Killed()
+    raise ValueError("injected fault at %r" % (key,))
+
+
 class Stage(object):
     name = None
     key = None
@@ -68,10 +87,12 @@ class Stage(object):
     def main(self, parallel, log, faults=()):
         raise NotImplementedError
 
+    flavour = "plain"
+
     def _cb(self, key, log, faults, extra=None):
         simmp.cb_sync("cb_start", (key, extra), log)
         if key in faults:
-            raise ValueError("injected fault at %r" % (key,))
+            raise_fault(self.flavour, key)
         simmp.cb_sync("cb_end", (key, extra), log)
 
 
